@@ -10,7 +10,7 @@ package main
 // receive timeout is configured and expires on the silent stream, which takes the Reconnect path).  With
 // RetryBaseDelay = RetryMaxDelay = D and no randomisation every retry comes D after the end of the failed
 // attempt; the scenario counts the dial attempts in a window of 3 D after the first refused one: at most
-// 3 + 1 (one more for a timer already under way) — a retry loop that lost its backoff makes hundreds.
+// one per D of the time that really passed, plus two — a retry loop that lost its backoff makes hundreds.
 // Finally Remove must return.  Observation: `paced=<0|1> done=<0|1>`.
 
 import (
@@ -145,10 +145,14 @@ func mgPace(how string) string {
 		return "paced=1 done=0" // never retried at all: the session discipline scenarios' subject
 	}
 	n0 := atomic.LoadInt32(&conns.refused)
+	t0 := time.Now()
 	time.Sleep(3 * D)
 	n := atomic.LoadInt32(&conns.refused) - n0
+	// one retry per D of the time that really passed (a loaded machine oversleeps), one for a timer already
+	// under way, one for rounding
+	allowed := int32(time.Since(t0)/D) + 2
 	paced := "1"
-	if n > 4 {
+	if n > allowed {
 		paced = "0"
 	}
 	d := "1"
